@@ -252,6 +252,13 @@ def explore(run, tier):
         cases.append({'k': 'enczmk', 'parts': parts, 'mk': rkey(rng.choice([16, 24]))})
         cases.append({'k': 'kcv', 'key': rkey(rng.choice([16, 24])), 'n': rng.choice([6, 6, 4, 16, 1])})
     cases.append({'k': 'zmk', 'parts': ['6D6BE51F04F76167491554FE25F7ABEF', '67499B2CF137DFCB9EA28FF757CD10A7']})
+    # binary keys that LOOK like text (every byte an ASCII hex digit character, printable text, blanks)
+    for kb in (b'0123456789ABCDEF', b'deadbeefcafe0123', b'0123456789abcdef01234567', b'                ', b'AAAAAAAAAAAAAAAA',
+               b'1234567812345678'):
+        for n in (6, 16):
+            cases.append({'k': 'kcv', 'key': kb.hex(), 'n': n})
+        cases.append({'k': 'zmk', 'parts': [kb.hex()]})
+        cases.append({'k': 'zmk', 'parts': [kb.hex(), '00' * len(kb)]})
     # one component (capitals; a single-length, 16-digit one is widened to 32 digits), and none at all (the zero key)
     for parts in (['6D6BE51F04F76167491554FE25F7ABEF'], ['0123456789ABCDEF'], ['0123456789abcdef'], [], ['00' * 16],
                   ['0123456789ABCDEF', 'FEDCBA9876543210'], ['ab' * 24]):
